@@ -28,6 +28,9 @@ CLAIMED = {
  "C02": ("polynomial value congruence on SSA + must-pass-through (static)",
          "Structural preconditions of sound/complete triggering across block edges decided for every path: the two copies of the record length are congruent after every store that can change either; the history kept on trim is a*nsamp+b (a>=2,b>=0) of that copy; edge/level scan window = [max(LastTrigger-firstFrame+NSamples, NPresamples), len+NPresamples-NSamples), auto scan bounds, one-record dead time after an edge trigger; LastTrigger = last record's frame whenever records exist; reconfiguration resets the edge-multi state; the start path initialises the hold-off reference far in the past. Not decided: trigger criteria on sample values, non-overlap, auto-trigger gap bound.",
          "function and field names of the trigger passes are name-keyed anchors; scan-window formulas are compared as polynomials, so algebraically equivalent rewrites pass while a different window is reported", "DESIGN.md §2 C02"),
+ "C09": ("counter/set pairing by control dependence, guard dominance (E6), who-may-reset reachability, must-pass-through of the state report, loop-unconditional refresh (static)",
+         "Structural clauses decided for every path: the connection counter gating the distribution fast path equals the set size by construction (insert stores true and is paired with an absence-test-controlled increment, delete with a presence-test-controlled decrement, wholesale reset replaces every set and zeroes the counter, no other writers, reset reachable only from the stop-coupling request); both endpoints of an inserted pair proven in range and distinct, every table index proven in range; the reported state is a full transcription of the live table, no cached copy exists, and every request closure that can change the table publishes the recomputed state afterwards on every path; distribution refreshes every processor's primaries unconditionally each cycle, merges exactly the receiver's sources and hands each processor its own list; edit errors reach the reply. Not decided: multiset equality of emitted secondaries per cycle (runtime values).",
+         "TriggerBroker and its field names are name-keyed anchors; equal-length invariants are derived (make with the same size value, size field not written in the run phase)", "DESIGN.md §2 C09"),
  "C13": ("dominating-comparison facts, path rule, control dependence and flow-insensitive dependence slicing on SSA (static)",
          "Structural necessary conditions only (the numeric identities are not decided): projectors/basis installed only after the three shape equalities hold; record length never changed while projectors validated for another length stay installed; sample->float64 conversions under the matching arm of the signed flag; each analysis result depends on the record's own data/pre-trigger count (never on the per-channel length setting), model coefficients on the projector matrix, residual on the basis matrix; slices stored into a record are fresh per record.",
          "dependence is over-approximated through memory of locals, make() sites and struct-field storage; field names of DataRecord are name-keyed anchors", "DESIGN.md §2 C13"),
